@@ -172,6 +172,8 @@ Silent ==
              \/ (Head(jobq) = "ST" /\ run.alive)
              \/ (Head(jobq) \in {"GS", "SG"} /\ ~run.alive)
           /\ JobStep
+       \/ WaiterSend
+       \/ JobToWait
        \/ WaiterStart
        \/ WaiterReset
     /\ UNCHANGED <<l, pend, kinds, kidsCfg, sig, phase>>
